@@ -414,3 +414,45 @@ pub fn hostile_quoted_sentence(rng: &mut Rng) -> String {
     let f = frames[rng.below(frames.len())];
     f.replacen("{}", &tok, 1).replace("{{", "{").replace("}}", "}")
 }
+
+/// A long delimited token — well-formed or malformed — whose multi-byte characters sit on
+/// the byte positions where code that shortens or chunks text likes to cut (…64, …128, …160,
+/// …256, …1024, …4096), optionally inside a frame. Malformed ones must be rejected, never
+/// crash the lexer while it words its complaint.
+pub fn long_token_case(rng: &mut Rng) -> String {
+    let around = [16usize, 32, 64, 80, 100, 128, 160, 200, 255, 256, 512, 1024, 4096][rng.below(13)];
+    let n = (around + rng.below(9)).saturating_sub(6);
+    let filler: String = (0..n).map(|i| [b'a', b'x', b'0', b' '][if rng.chance(1, 9) { 3 } else { i % 3 }] as char).collect();
+    let wide: String = (0..1 + rng.below(4)).map(|_| ["é", "日", "\u{1F600}", "ÿ", "\u{10FFFF}"][rng.below(5)]).collect();
+    let tail = ["", "", "\\x", "\\", "\u{1}", ", oops]", "\\u12", "\\ud800", "\"", "'", "`", "\\'", "\n"][rng.below(13)];
+    let body = format!("{}{}{}{}", filler, wide, tail, if rng.chance(1, 2) { "zz" } else { "" });
+    let tok = match rng.below(8) {
+        0 => format!("\"{}\"", body),
+        1 => format!("'{}'", body),
+        2 => format!("`\"{}\"`", body),
+        3 => format!("`[\"{}\", 1]`", body),
+        4 => format!("`[\"{}\", ]`", body),
+        5 => format!("\"{}", body),
+        6 => format!("`{{\"{}\": 1}}`", body),
+        _ => format!("`{}`", body),
+    };
+    let frames = ["{}", "{}", "a.{}", "[{}, a]", "a[?{} == b]", "length({})", "a | {}", "{} | b"];
+    frames[rng.below(frames.len())].replacen("{}", &tok, 1)
+}
+
+/// Characters that Unicode calls numeric, alphabetic or white-space but the grammar does not,
+/// placed where a digit, an identifier character or a blank is expected.
+pub fn lookalike_case(rng: &mut Rng) -> String {
+    const DIGITS: [&str; 8] = ["\u{0663}", "\u{FF11}", "\u{00B2}", "\u{00BD}", "\u{2167}", "\u{0BE7}", "\u{3007}", "\u{1D7D9}"];
+    const LETTERS: [&str; 6] = ["é", "\u{FF41}", "\u{03B1}", "\u{00AA}", "\u{2118}", "\u{0300}"];
+    const BLANKS: [&str; 9] = ["\u{B}", "\u{C}", "\u{85}", "\u{A0}", "\u{2028}", "\u{3000}", "\u{FEFF}", "\u{200B}", "\u{1680}"];
+    let d = DIGITS[rng.below(DIGITS.len())];
+    let l = LETTERS[rng.below(LETTERS.len())];
+    let b = BLANKS[rng.below(BLANKS.len())];
+    let t = [
+        "a[-{d}]", "a[{d}]", "a[-{d}1]", "a[-1{d}]", "a[1:-{d}]", "[-{d}]", "a[{d}:]", "a[::-{d}]", "a[-{d}", "-{d}", "a[- {d}]", "a[-{d}{d}]",
+        "{l}", "a{l}", "{l}a", "a.{l}", "a.b{l}c", "f{l}(a)", "&{l}",
+        "a{b}", "{b}a", "a{b}.b", "a .{b}b", "a{b}|{b}b", "[a,{b}b]", "a{b}", "'x'{b}", "a[{b}0]",
+    ][rng.below(28)];
+    t.replace("{d}", d).replace("{l}", l).replace("{b}", b)
+}
